@@ -431,6 +431,7 @@ type FuncContract struct {
 	Requires  []*Clause
 	RequiresLocked []*Clause
 	Ensures   []*Clause
+	Lemmas    []*Clause // facts about the result that are assumed at call sites and not checked in the body (listed as assumptions)
 	Invs      map[int][]*Clause
 	Modifies  []ModItem
 	ModText   []string
@@ -469,6 +470,7 @@ type LockInv struct {
 	Mutex   string // field name
 	Self    string // name of the receiver variable in Inv
 	Guards  []string
+	RefOnly map[string]bool // "ref f": the field is shared mutable state, what it refers to is never modified once published
 	Inv     []*Clause
 }
 
@@ -495,7 +497,7 @@ func newContractSet() *ContractSet {
 var clauseKeywords = map[string]bool{
 	"func": true, "on_lock": true, "extern": true, "requires": true, "requires_locked": true, "ensures": true, "modifies": true, "nopanic": true,
 	"loop": true, "specfunc": true, "ghost": true, "ghostsum": true, "ghost_set": true, "lockinv": true, "axiom": true, "trusted": true,
-	"pure": true, "inline": true, "held": true, "acquires": true, "assert": true, "package": true, "invariant": true,
+	"pure": true, "inline": true, "held": true, "acquires": true, "assert": true, "package": true, "invariant": true, "lemma": true,
 }
 
 // splitLabel splits "label: expr" (label is a bare identifier followed by ':' but not '::').
@@ -593,6 +595,17 @@ func (cs *ContractSet) parseContractText(file, pkgPath string, lines []string, l
 				return fmt.Errorf("%s:%d: duplicate contract for %s", file, it.line, full)
 			}
 			cs.Funcs[full] = cur
+		case "lemma":
+			// lemma label: expr -- a mathematical consequence of the proved postconditions that the
+			// solvers cannot derive (e.g. finite-set cardinality); assumed at call sites, never checked
+			if cur == nil {
+				return fmt.Errorf("%s:%d: lemma outside func", file, it.line)
+			}
+			c, err := mk(kw, rest, it.line)
+			if err != nil {
+				return err
+			}
+			cur.Lemmas = append(cur.Lemmas, c)
 		case "requires", "ensures", "requires_locked":
 			if cur == nil {
 				return fmt.Errorf("%s:%d: %s outside func", file, it.line, kw)
@@ -765,6 +778,13 @@ func (cs *ContractSet) parseContractText(file, pkgPath string, lines []string, l
 				g := strings.Join(fs[i+1:], " ")
 				for _, x := range strings.Split(g, ",") {
 					if x = strings.TrimSpace(x); x != "" {
+						if strings.HasPrefix(x, "ref ") {
+							x = strings.TrimSpace(strings.TrimPrefix(x, "ref "))
+							if li.RefOnly == nil {
+								li.RefOnly = map[string]bool{}
+							}
+							li.RefOnly[x] = true
+						}
 						li.Guards = append(li.Guards, x)
 					}
 				}
